@@ -11,7 +11,8 @@ from ..facts import Facts
 from ..astutil import unparse, dotted, walk_no_nested
 from ..callgraph import CallGraph
 from ..prov import Prov, DIRKINDS, coarse, is_cwd_expr
-from ..pathwalk import loop_paths, MUTATORS
+from ..pathwalk import MUTATORS, show
+from ..hwalk import loop_paths_h, function_paths
 from ..immsites import find_all
 
 LEVEL = 'other'
@@ -50,8 +51,15 @@ def classify_sink(pv, q, name, arg):
 def check_sinks(rep, facts, cg, pv, rule, reach):
     sinks = pv.sinks(reach)
     rep.analysed['filesystem sinks reachable from assemble'] = len(sinks)
+    roles = {'sinks that read a file': 0, 'sinks given the caller\'s own path': 0, 'sinks given a path the include search returned': 0}
     for q, node, name, arg in sinks:
         verdict, ks = classify_sink(pv, q, name, arg)
+        if name.split('.')[-1] in ('open', 'read_text', 'read_bytes'):
+            roles['sinks that read a file'] += 1
+        if 'UserGiven' in ks:
+            roles['sinks given the caller\'s own path'] += 1
+        if ks == {'Resolved'}:
+            roles['sinks given a path the include search returned'] += 1
         if verdict == 'unknown':
             defer(rep, '{}: the path given to {}({}) could not be classified (kinds {}): no verdict'.format(q, name, unparse(arg), sorted(ks) or ['none']))
             continue
@@ -70,6 +78,7 @@ def check_sinks(rep, facts, cg, pv, rule, reach):
                     continue
                 rep.check(g == 'guarded', rule + '.cwd', '{}: the working directory ({}) is consulted only when the input is a source string'.format(q, unparse(n)),
                           lambda q=q, n=n: Finding(rule + '.cwd', q, n, 'the working directory takes part in resolving includes of a *file*', line=n.lineno))
+    rep.analysed.update(roles)
     return sinks
 
 
@@ -185,46 +194,145 @@ def check_reader(rep, facts, cg, pv, reach):
     if not muts:
         rep.ok('R14.2.dirs-copied', 'the caller\'s include directory list is only read ({} by-reference uses followed)'.format(len(shared)))
 
-    # R14.3 splice in place
-    result = None
-    for st in fn.body:
-        if isinstance(st, ast.Return) and isinstance(st.value, ast.Name):
-            result = st.value.id
-    if result is None:
-        raise AnalysisError('read_lines: the returned list is not a local variable')
-    _, loop, paths = loop_paths(facts, fn)
-    n_inc = 0
-    is_result = lambda v: v in (('lv', result), ('name', result))
+    check_splice(rep, facts, cg, fn)
+
+
+def rec_calls(values):
+    out = []
+    for v in values:
+        for r in find_all(v, lambda t: t[0] == 'call' and t[1] == 'read_lines'):
+            if r not in out:
+                out.append(r)
+    return out
+
+
+def parts_of(value):
+    """What a value spliced into the line list contributes: [('rec', call) | ('one', v) | ('opaque', v)]."""
+    v = strip_res(value)
+    if v[0] == 'call' and v[1] == 'read_lines':
+        return [('rec', v)]
+    if v[0] in ('list', 'tuple'):
+        if any(x[0] == 'star' for x in v[1]):
+            return [('opaque', v)]
+        return [('one', x) for x in v[1]]
+    return [('opaque', v)]
+
+
+def judge_contribution(rep, where, cond, recs, parts, node, fallback_line):
+    """One path of the per-line processing: an include line contributes exactly the lines of the included file, any other line at
+    most itself.  Returns 'include' | 'plain' | 'opaque'."""
+    line = getattr(node, 'lineno', fallback_line)
+    if any(k == 'opaque' for k, _ in parts):
+        defer(rep, '{}: what `{}` adds to the line list is not understood: no verdict'.format(where, show(next(v for k, v in parts if k == 'opaque'))[:80]))
+        return 'opaque'
+    if recs:
+        ok = len(recs) == 1 and parts == [('rec', recs[0])]
+        rep.check(ok, 'R14.3.splice', 'include path [{}]: the lines of the included file, and nothing else, are added at the position of the include line'.format(cond[-60:]),
+                  lambda: Finding('R14.3.splice', where, node, 'the lines of an included file are not spliced in (once, alone) at the position of the include line', line=line))
+        return 'include'
+    ok = len(parts) <= 1 and all(k == 'one' for k, _ in parts)
+    rep.check(ok, 'R14.3.splice', 'ordinary line: kept once, in order', lambda: Finding('R14.3.splice', where, node, 'source lines are not kept exactly once in order', line=line),
+              nontrivial=False)
+    return 'plain'
+
+
+def check_index_iteration(loop, paths):
+    """A `while i < len(rows)` loop visits the rows in order, each once, iff i starts at 0, is advanced by exactly 1 on every path
+    through the body, and rows are only read at the not yet advanced index.  Anything else is not understood (AnalysisError)."""
+    from ..immsites import contains
+    if not paths:
+        raise AnalysisError('read_lines: the reader loop has no path')
     for p in paths:
+        test = p.loop_test
+        if not (test[0] == 'cmp' and test[1] in ('<', '!=') and test[2][0] == 'lv' and test[3][0] == 'call' and test[3][1] == 'len' and len(test[3][2]) == 1):
+            raise AnalysisError('read_lines: while loop over {} is not an index iteration'.format(show(test)[:80]))
+        idx, rows = test[2], test[3][2][0]
+        if find_all(rows, lambda t: t[0] == 'lv') or p.pre_env.get(idx[1]) != ('const', 0):
+            raise AnalysisError('read_lines: the index of the reader loop does not start at 0 over a fixed list')
         if p.end == 'raise':
             continue
-        recs = []
-        for ev in p.events:
-            for part in ev[1:]:
-                for r in find_all(part, lambda t: t[0] == 'call' and t[1] == 'read_lines'):
-                    if r not in recs:
-                        recs.append(r)
-        muts = [e for e in p.events if (e[0] == 'mcall' and e[2] in MUTATORS and is_result(e[1])) or (e[0] == 'aug' and e[1] == result)]
-        node = muts[0][-1] if muts else (p.end_node or loop)
-        if recs:
-            n_inc += 1
-            ok = len(recs) == 1 and len(muts) == 1 and (
-                (muts[0][0] == 'mcall' and muts[0][2] == 'extend' and len(muts[0][3]) == 1 and strip_res(muts[0][3][0]) == recs[0])
-                or (muts[0][0] == 'aug' and muts[0][2] == '+' and strip_res(muts[0][3]) == recs[0]))
-            rep.check(ok, 'R14.3.splice', 'include path [{}]: the lines of the included file, and nothing else, are added at the position of the include line'.format(p.cond_text()[-60:]),
-                      lambda node=node: Finding('R14.3.splice', 'read_lines', node, 'the lines of an included file are not spliced in (once, alone) at the position of the include line',
-                                                line=getattr(node, 'lineno', fn.lineno)))
-        elif muts:
-            ok = len(muts) == 1 and muts[0][0] == 'mcall' and muts[0][2] == 'append'
-            rep.check(ok, 'R14.3.splice', 'ordinary line: appended once, in order',
-                      lambda node=node: Finding('R14.3.splice', 'read_lines', node, 'source lines are not appended exactly once in order', line=getattr(node, 'lineno', fn.lineno)),
-                      nontrivial=False)
+        augs = [e for e in p.events if e[0] == 'aug' and e[1] == idx[1]]
+        if len(augs) != 1 or augs[0][2] != '+' or augs[0][3] != ('const', 1):
+            raise AnalysisError('read_lines: the index of the reader loop is not advanced by exactly one on the path [{}]'.format(p.cond_text()[-80:]))
+        values = [part for ev in p.events for part in ev[1:] if isinstance(part, tuple)] + [t for t, _, _ in p.conds]
+        for v in values:
+            for t in find_all(v, lambda t: t[0] == 'sub' and (t[1] == rows or contains(t[2], idx))):
+                if t != ('sub', rows, idx):
+                    raise AnalysisError('read_lines: rows are read at {} (not the current index)'.format(show(t)[:60]))
+
+
+def check_splice(rep, facts, cg, fn):
+    """R14.3: the returned list is the in-order concatenation, over the source lines, of what each line contributes."""
+    ret = [st for st in fn.body if isinstance(st, ast.Return) and st.value is not None]
+    if not ret:
+        raise AnalysisError('read_lines: no top-level return')
+    value = ret[-1].value
+    result = value.id if isinstance(value, ast.Name) else None
+    loops = [st for st in fn.body if isinstance(st, (ast.For, ast.While))]
+    n_inc = 0
+    if result is not None and loops:
+        # loop form: the list is grown inside the (first) top-level loop
+        loop, paths = loop_paths_h(facts, fn)
+        if isinstance(loop, ast.While):
+            check_index_iteration(loop, paths)
+        is_result = lambda v: v in (('lv', result), ('name', result))
+        for p in paths:
+            if p.end == 'raise':
+                continue
+            recs = rec_calls([part for ev in p.events for part in ev[1:]])
+            parts = []
+            node = None
+            unknown_mut = None
+            for e in p.events:
+                if e[0] == 'mcall' and is_result(e[1]) and e[2] in MUTATORS:
+                    node = node or e[5]
+                    if e[2] == 'append' and len(e[3]) == 1:
+                        parts.append(('one', e[3][0]))
+                    elif e[2] == 'extend' and len(e[3]) == 1:
+                        parts += parts_of(e[3][0])
+                    else:
+                        unknown_mut = e
+                elif e[0] == 'aug' and e[1] == result:
+                    node = node or e[4]
+                    if e[2] == '+':
+                        parts += parts_of(e[3])
+                    else:
+                        unknown_mut = e
+            if unknown_mut is not None:
+                continue        # reported by R14.3.order below
+            if judge_contribution(rep, 'read_lines', p.cond_text(), recs, parts, node or p.end_node or loop, fn.lineno) == 'include':
+                n_inc += 1
+        bad = [n for n in ast.walk(fn) if isinstance(n, ast.Call) and isinstance(n.func, ast.Attribute) and n.func.attr in ('insert', 'sort', 'reverse', 'pop', 'remove', 'clear')
+               and isinstance(n.func.value, ast.Name) and n.func.value.id == result]
+        bad += [n for n in ast.walk(loop) if isinstance(n, ast.Name) and isinstance(n.ctx, ast.Store) and n.id == result and not isinstance(getattr(n, '_parent', None), ast.AugAssign)]
+        rep.check(not bad, 'R14.3.order', 'the line list is built by append/extend only and never rebound inside the loop',
+                  lambda: Finding('R14.3.order', 'read_lines', stmt_of(bad[0]), 'the line list is reordered / rebuilt inside the reader loop', line=bad[0].lineno), nontrivial=False)
+    else:
+        # flat-map form: [x for <line> in <lines> ... for x in contribution(<line>)]
+        if result is not None:
+            defs = [st for st in fn.body if isinstance(st, ast.Assign) and any(isinstance(t, ast.Name) and t.id == result for t in st.targets)]
+            if len(defs) != 1:
+                raise AnalysisError('read_lines: the returned list is neither grown in a loop nor built by one comprehension')
+            value = defs[0].value
+        g = value.generators[-1] if isinstance(value, ast.ListComp) and len(value.generators) >= 2 else None
+        if not (g is not None and isinstance(value.elt, ast.Name) and isinstance(g.target, ast.Name) and g.target.id == value.elt.id and not g.ifs
+                and isinstance(g.iter, ast.Call) and isinstance(g.iter.func, ast.Name)):
+            raise AnalysisError('read_lines: the returned list is neither grown in a loop nor a flattening comprehension over a per-line function')
+        target = cg.local_defs('read_lines').get(g.iter.func.id) or (g.iter.func.id if g.iter.func.id in facts.funcs else None)
+        if target is None:
+            raise AnalysisError('read_lines: per-line function {} not found'.format(g.iter.func.id))
+        w, paths = function_paths(facts, cg.funcs[target])
+        for p in paths:
+            if p.end == 'raise':
+                continue
+            recs = rec_calls([part for ev in p.events for part in ev[1:]])
+            rv = [e for e in p.events if e[0] == 'return']
+            if not rv:
+                defer(rep, '{}: a path returns nothing to flatten'.format(target))
+                continue
+            if judge_contribution(rep, target, p.cond_text(), recs, parts_of(rv[-1][1]), rv[-1][2], fn.lineno) == 'include':
+                n_inc += 1
     rep.analysed['include paths through the reader loop'] = n_inc
-    bad = [n for n in ast.walk(fn) if isinstance(n, ast.Call) and isinstance(n.func, ast.Attribute) and n.func.attr in ('insert', 'sort', 'reverse', 'pop', 'remove', 'clear')
-           and isinstance(n.func.value, ast.Name) and n.func.value.id == result]
-    bad += [n for n in ast.walk(loop) if isinstance(n, ast.Name) and isinstance(n.ctx, ast.Store) and n.id == result and not isinstance(getattr(n, '_parent', None), ast.AugAssign)]
-    rep.check(not bad, 'R14.3.order', 'the line list is built by append/extend only and never rebound inside the loop',
-              lambda: Finding('R14.3.order', 'read_lines', stmt_of(bad[0]), 'the line list is reordered / rebuilt inside the reader loop', line=bad[0].lineno), nontrivial=False)
 
 
 def strip_res(v):
@@ -288,7 +396,12 @@ def run(repo, tier):
     check_reader(rep, facts, cg, pv, reach)
     check_cli(rep, facts, cg, pv)
     raise_deferred(rep)
-    rep.floor('filesystem sinks reachable from assemble', 5)
+    # what the rule needs to have seen (not a count of syntactic sites: a refactor may merge probes): the source file and the
+    # include_bytes content are read, the caller's own path is probed / opened, the search result is probed and measured / read
+    rep.floor('filesystem sinks reachable from assemble', 4)
+    rep.floor('sinks that read a file', 2)
+    rep.floor('sinks given the caller\'s own path', 1)
+    rep.floor('sinks given a path the include search returned', 2)
     rep.floor('recursive include calls', 1)
     rep.floor('include search sites', 1)
     rep.floor('include paths through the reader loop', 1)
